@@ -1,7 +1,9 @@
 package script
 
 import (
+	"fmt"
 	"os"
+	"runtime/metrics"
 	"strings"
 	"sync"
 	"time"
@@ -21,6 +23,9 @@ func Run(c *vrun.Ctx) error {
 	c.Assume("signature mathematics, signature hashes (C07) and taproot commitment arithmetic are not re-implemented: signatures are made with btcec over the hashes txscript computes; an abstract signature is valid for exactly one (key, sigversion, code position)")
 	c.Assume("hash opcodes are injective on the elements used (no collisions among the concretised values; checked for equal lengths at concretisation)")
 	b := newBinder(c)
+	stop := make(chan struct{})
+	defer close(stop)
+	go watchdog(c, stop)
 	// several JVMs run side by side on a shared machine: keep their helper threads few
 	os.Setenv("_JAVA_OPTIONS", "-XX:ParallelGCThreads=2 -XX:CICompilerCount=2")
 	q, th := c.Tier != "thorough", c.Thorough
@@ -87,4 +92,46 @@ func Run(c *vrun.Ctx) error {
 	c.Ev.Coverage.Explanation = "exhaustive means: TLC enumerated the complete state space of each bounded configuration (all programs up to the tier's length over the stated alphabets, " +
 		"initial stacks, modes and flag sets; all pumps; all scenarios) and every state was replayed into txscript. It does not mean all scripts."
 	return nil
+}
+
+// watchdog guards the machine against an implementation that allocates without
+// bound or does not terminate on some script (the property's "never exceeds its
+// bounds"): when the process grows past 12 GB or one script verification runs
+// for more than 90 s, the spends in flight are reported and the check exits 1.
+func watchdog(c *vrun.Ctx, stop chan struct{}) {
+	sample := []metrics.Sample{{Name: "/memory/classes/total:bytes"}}
+	tick := time.NewTicker(300 * time.Millisecond)
+	defer tick.Stop()
+	for {
+		select {
+		case <-stop:
+			return
+		case <-tick.C:
+		}
+		metrics.Read(sample)
+		total := sample[0].Value.Uint64()
+		var running []map[string]any
+		slow := false
+		inflight.Range(func(k, v any) bool {
+			sp := k.(*spend)
+			d := time.Since(v.(time.Time))
+			if d > 90*time.Second {
+				slow = true
+			}
+			if d > 2*time.Second || total > 12<<30 {
+				m := sp.replay()
+				m["running_for_s"] = d.Seconds()
+				running = append(running, m)
+			}
+			return true
+		})
+		if total > 12<<30 || slow {
+			c.Violation("resource:unbounded-allocation-or-no-termination",
+				fmt.Sprintf("script verification does not stay within bounds: process memory %d MB, %d verification(s) running long; see the replay for the spends in flight", total>>20, len(running)),
+				map[string]any{"in_flight": running})
+			fmt.Printf("RESULT property=%s tier=%s seed=%d violations=%d (aborted by the resource watchdog) exit=1\n", c.Prop, c.Tier, c.Seed, c.Violations())
+			os.RemoveAll(c.Scratch)
+			os.Exit(1)
+		}
+	}
 }
